@@ -18,6 +18,7 @@ package main
 import (
 	"bufio"
 	"bytes"
+	"context"
 	"encoding/json"
 	"fmt"
 	"io"
@@ -1561,7 +1562,12 @@ func c07RunSource(seqs [][]c07Step) ([][]c07StepObs, string, error) {
 	}
 	input := mustJSON(seqs)
 	run := func(asNobody bool) ([][]c07StepObs, error) {
-		cmd := exec.Command(exe, "c07src", "-")
+		// a render that never returns (a leaked lock, an unbounded loop) must become an observation,
+		// not a hanging check: the whole child gets two minutes (a normal run takes seconds)
+		ctx, cancel := context.WithTimeout(context.Background(), 120*time.Second)
+		defer cancel()
+		cmd := exec.CommandContext(ctx, exe, "c07src", "-")
+		cmd.WaitDelay = 5 * time.Second
 		cmd.Stdin = bytes.NewReader(input)
 		var stdout, stderr bytes.Buffer
 		cmd.Stdout, cmd.Stderr = &stdout, &stderr
@@ -1569,6 +1575,9 @@ func c07RunSource(seqs [][]c07Step) ([][]c07StepObs, string, error) {
 			cmd.SysProcAttr = &syscall.SysProcAttr{Credential: &syscall.Credential{Uid: 65534, Gid: 65534, NoSetGroups: false}}
 		}
 		if err := cmd.Run(); err != nil {
+			if ctx.Err() != nil {
+				return nil, fmt.Errorf("source child TIMED OUT after 120s (a snippet read or a render did not return): %s", c07Clip(stderr.String(), 300))
+			}
 			return nil, fmt.Errorf("%v: %s", err, c07Clip(stderr.String(), 400))
 		}
 		for _, l := range strings.Split(stdout.String(), "\n") {
@@ -1589,6 +1598,9 @@ func c07RunSource(seqs [][]c07Step) ([][]c07StepObs, string, error) {
 		obs, err := run(true)
 		if err == nil {
 			return obs, note + "source child ran as uid 65534 (nobody): chmod 000 makes a file unreadable (real permission error)", nil
+		}
+		if strings.Contains(err.Error(), "TIMED OUT") {
+			return nil, note, err
 		}
 		note += "running the source child as uid nobody failed (" + c07Clip(err.Error(), 160) + "); "
 		// clean what the unprivileged child may have left
